@@ -2,8 +2,12 @@ import DS.Model.Sym
 import DS.Model.Formats
 import DS.Model.Load
 import DS.Model.Sched
+import DS.Model.Cli
+import DS.Model.SymText
+import DS.Gen.Formats
 import DS.Model.World
 import DS.Model.Orbit
+import DS.Model.Constraints
 import DS.Model.Adp
 import DS.Gen.DIndex
 import DS.Model.Parsers
@@ -49,14 +53,130 @@ def symHandle (ws : List String) : Option String :=
     | _ => some "bad-op"
   | _ => none
 
+/-! ### constraints (C05/C06): rationals travel as `p/q` -/
+
+def parseRat (s : String) : Option Rat :=
+  match s.splitOn "/" with
+  | [p] => p.toInt?.map (fun n => (n : Rat))
+  | [p, q] => match p.toInt?, q.toNat? with
+    | some n, some d => if d = 0 then none else some ((n : Rat) / (d : Rat))
+    | _, _ => none
+  | _ => none
+
+def showRat (r : Rat) : String := if r.den = 1 then toString r.num else s!"{r.num}/{r.den}"
+
+def vecs3 : List Rat → List (Vec3 Rat)
+  | a :: b :: c :: rest => ⟨a, b, c⟩ :: vecs3 rest
+  | _ => []
+
+def mats9 : List Rat → List (Mat3 Rat)
+  | a :: b :: c :: d :: e :: f :: g :: h :: i :: rest => ⟨a, b, c, d, e, f, g, h, i⟩ :: mats9 rest
+  | _ => []
+
+def showVecQ (v : Vec3 Rat) : String := s!"{showRat v.x} {showRat v.y} {showRat v.z}"
+def showMatQ (m : Mat3 Rat) : String :=
+  s!"{showRat m.a11} {showRat m.a12} {showRat m.a13} {showRat m.a21} {showRat m.a22} {showRat m.a23} {showRat m.a31} {showRat m.a32} {showRat m.a33}"
+
+/-- `<sgno> <n> <idx…>` → the listed operations of the setting -/
+def takeOps (ws : List String) : Option (List Op × List String) :=
+  match ws with
+  | sg :: n :: rest =>
+    match sg.toNat?, n.toNat? with
+    | some sgno, some cnt =>
+      match findSG sgno with
+      | some g =>
+        let idx := (rest.take cnt).mapM String.toNat?
+        match idx with
+        | some is => if is.all (· < g.ops.length) && is.length = cnt then
+            some (is.map (getOp g.ops), rest.drop cnt) else none
+        | none => none
+      | none => none
+    | _, _ => none
+  | _ => none
+
+def conHandle (ws : List String) : Option String :=
+  match ws with
+  -- con.free <sgno> <nH> <idx…> <m> <rows 3m> <dual 3m>
+  | "con.free" :: rest =>
+    match takeOps rest with
+    | some (H, m :: nums) =>
+      match m.toNat?, nums.mapM parseRat with
+      | some mm, some qs =>
+        if qs.length ≠ 6 * mm then some "bad-op" else
+        let rows := vecs3 (qs.take (3 * mm))
+        let dual := vecs3 (qs.drop (3 * mm))
+        let a := rows.all (Con.inFree H)
+        let b := Con.isDual rows dual
+        let c := Con.checkFree H rows dual
+        some s!"{c} rowsfree={a} dual={b}"
+      | _, _ => some "bad-op"
+    | _ => some "bad-op"
+  -- con.formula <sgno> 1 <opidx> <m> <rows 3m> <gx gy gz> <ex ey ez>
+  | "con.formula" :: rest =>
+    match takeOps rest with
+    | some ([a], m :: nums) =>
+      match m.toNat?, nums.mapM parseRat with
+      | some mm, some qs =>
+        if qs.length ≠ 3 * mm + 6 then some "bad-op" else
+        let rows := vecs3 (qs.take (3 * mm))
+        match vecs3 (qs.drop (3 * mm)) with
+        | [g, e] =>
+          let (vals, tfin) := Con.posParams rows g
+          let f := Con.posFormula (Con.rotQ a) rows vals e
+          let vs := String.intercalate " " (vals.map showRat)
+          let cs := String.intercalate ";" (f.1.map showVecQ)
+          some s!"{vs}|{showVecQ tfin}|{cs}|{showVecQ f.2}"
+        | _ => some "bad-op"
+      | _, _ => some "bad-op"
+    | _ => some "bad-op"
+  -- con.uspace <sgno> <nH> <idx…> <m> <basis 9m> <dual 9m>
+  | "con.uspace" :: rest =>
+    match takeOps rest with
+    | some (H, m :: nums) =>
+      match m.toNat?, nums.mapM parseRat with
+      | some mm, some qs =>
+        if qs.length ≠ 18 * mm then some "bad-op" else
+        let bs := mats9 (qs.take (9 * mm))
+        let dual := mats9 (qs.drop (9 * mm))
+        let a := bs.all (fun b => Con.inInvT H b && Con.symmB b)
+        let b := Con.isDualT bs dual
+        let c := Con.checkUspace H bs dual
+        some s!"{c} invariant={a} dual={b} ortho={Con.isOrtho bs}"
+      | _, _ => some "bad-op"
+    | _ => some "bad-op"
+  -- con.proj <m> <basis 9m> <U 9>
+  | "con.proj" :: m :: nums =>
+    match m.toNat?, nums.mapM parseRat with
+    | some mm, some qs =>
+      if qs.length ≠ 9 * mm + 9 then some "bad-op" else
+      let bs := mats9 (qs.take (9 * mm))
+      match mats9 (qs.drop (9 * mm)) with
+      | [u] => some s!"{String.intercalate " " ((Con.projCoefs bs u).map showRat)}|{showMatQ (Con.proj bs u)}"
+      | _ => some "bad-op"
+    | _, _ => some "bad-op"
+  -- con.rot <sgno> 1 <opidx> <U 9>
+  | "con.rot" :: rest =>
+    match takeOps rest with
+    | some ([a], nums) =>
+      match nums.mapM parseRat with
+      | some qs => match mats9 qs with
+        | [u] => some (showMatQ (Con.rotT (Con.rotQ a) u))
+        | _ => some "bad-op"
+      | none => some "bad-op"
+    | _ => some "bad-op"
+  | _ => none
+
 /-- REGISTER model handlers here: each returns `none` for commands it does not own.
 Command names are prefixed by the model (`sym.`, `lat.`, `adp.`, `stru.`, ...). -/
 def handlers : List (List String → Option String) :=
   [ symHandle
+  , conHandle
   , DS.Parsers.parsersHandle DS.Gen.parsersCfg
   , fmtHandle
   , DS.Load.loadHandle
   , DS.Sched.schedHandle
+  , DS.Cli.cliHandle DS.Gen.cliConfig
+  , DS.SymText.symTextHandle
   , DS.World.worldHandle
   , adpHandle
   , latHandle
